@@ -201,3 +201,100 @@ def shadow_module(rng):
     except pt.Raise:
         return gen_module(rng, 1)
     return ('module', [ax], claims, [pf], [])
+
+
+# ---- the propositional fragment (Pi2/ModulePF.lean: NPat.PF, Pf.PF) ------------------------------------------------
+
+BOT = ('inst', ('mu', 0, ('svar', 0)), ())
+
+
+def is_pf_pat(p):
+    k = p[0]
+    if k == 'sym':
+        return True
+    if k == 'mv':
+        return not any(p[2:7])
+    if k in ('imp', 'app'):
+        return is_pf_pat(p[1]) and is_pf_pat(p[2])
+    if k == 'mu':
+        return p[1] == 0 and p[2] == ('svar', 0)
+    if k == 'inst':
+        keys = [a for a, _ in p[2]]
+        return is_pf_pat(p[1]) and all(is_pf_pat(v) for _, v in p[2]) and len(set(keys)) == len(keys)
+    return False
+
+
+def is_pf_proof(pf):
+    k = pf[0]
+    if k in ('prop1', 'prop2', 'prop3'):
+        return True
+    if k == 'mp':
+        return is_pf_proof(pf[1]) and is_pf_proof(pf[2])
+    if k == 'dyninst':
+        keys = [a for a, _ in pf[2]]
+        return is_pf_proof(pf[1]) and all(is_pf_pat(v) for _, v in pf[2]) and len(set(keys)) == len(keys)
+    if k == 'axiom':
+        return is_pf_pat(pf[1])
+    return False
+
+
+def is_pf_module(m):
+    _, ax, cl, pfs, subs = m
+    return all(map(is_pf_pat, ax)) and all(map(is_pf_pat, cl)) and all(map(is_pf_proof, pfs)) and all(map(is_pf_module, subs))
+
+
+def pf_pat(rng, depth):
+    if depth <= 0 or rng.random() < 0.3:
+        r = rng.random()
+        if r < 0.35:
+            return ('sym', rng.choice(gen.IDS))
+        if r < 0.8:
+            return pm.phi(rng.choice((0, 1, 2)))
+        return BOT
+    r = rng.random()
+    if r < 0.55:
+        return ('imp', pf_pat(rng, depth - 1), pf_pat(rng, depth - 1))
+    if r < 0.75:
+        return ('app', pf_pat(rng, depth - 1), pf_pat(rng, depth - 1))
+    # notation: neg / a binary notation body over the fragment
+    body = rng.choice((('imp', pm.phi(0), BOT), ('imp', ('imp', pm.phi(0), BOT), pm.phi(1)), ('app', ('sym', 1), pm.phi(0))))
+    ar = 2 if body[0] == 'imp' and body[1][0] == 'imp' else 1
+    return ('inst', body, tuple((i, pf_pat(rng, depth - 1)) for i in range(ar)))
+
+
+def pf_proof(rng, depth, axioms):
+    r = rng.random()
+    if depth <= 0 or r < 0.2:
+        return rng.choice([('prop1',), ('prop2',), ('prop3',)] + [('axiom', a) for a in axioms])
+    if r < 0.5:
+        pf = pf_proof(rng, depth - 1, axioms)
+        keys = rng.sample((0, 1, 2), rng.choice((1, 2, 3)))
+        return ('dyninst', pf, tuple((k, pf_pat(rng, rng.choice((0, 1, 2)))) for k in keys))
+    if r < 0.8:
+        pa = pf_proof(rng, depth - 1, axioms)
+        try:
+            A = conc(pa)
+        except pt.Raise:
+            return pa
+        return ('mp', ('dyninst', ('prop1',), ((0, A), (1, pf_pat(rng, 1)))), pa)
+    p = pf_pat(rng, 1)
+    pp = ('imp', p, p)
+    return ('mp', ('mp', ('dyninst', ('prop2',), ((0, p), (1, pp), (2, p))), ('dyninst', ('prop1',), ((0, p), (1, pp)))),
+            ('dyninst', ('prop1',), ((0, p), (1, p))))
+
+
+def pf_module(rng, subs=0):
+    axioms = [pf_pat(rng, 2) for _ in range(rng.choice((0, 1, 2)))]
+    proofs = []
+    for _ in range(rng.choice((1, 2, 3))):
+        for _ in range(20):
+            pf = pf_proof(rng, rng.choice((1, 2, 3)), axioms)
+            try:
+                conc(pf)
+                proofs.append(pf)
+                break
+            except pt.Raise:
+                continue
+    claims = [conc(pf) for pf in proofs]
+    submods = [('module', [pf_pat(rng, 1) for _ in range(rng.choice((0, 1)))], [], [], []) for _ in range(subs)]
+    return ('module', axioms, claims, proofs, submods)
